@@ -3,7 +3,7 @@
    What is modelled (after the code that exists; anchors in comments):
      resolve            MetadataManager.refresh / _current_version_info / _read_version_hint /
                         _read_metadata_file           (metadata_manager.py:120-134, 569-574, 622-633)
-     get_all_data_files Table._get_all_data_files     (transaction.py:1224-1286)
+     get_all_data_files Table._get_all_data_files / _data_files_of (ONE resolution; transaction.py)
      read_list          FileManager.read_manifest_list_file (file_manager.py:419-475)
      read_manifest      FileManager.read_manifest_file      (file_manager.py:275-366)
      read_data          Table._read_datafile_table / the loop head of _iter_file_batches
@@ -222,8 +222,8 @@ Definition get_all_data_files (E : env) (st : store) : M (list dfile) :=
   r0 <- resolve E st 0 ;;
   match (match r0 with Some md => find_snap md | None => None end) with
   | None =>
-      r1 <- resolve E st 1 ;;
-      match r1 with
+      (* emptiness is decided on the SAME metadata object (Table._data_files_of): no second resolution *)
+      match r0 with
       | Some md => match mcur md with
                    | Some id => if id =? -1 then ret [] else fail EInconsistent
                    | None => ret []
